@@ -390,10 +390,14 @@ let run_simcase () =
   let train_orcs = List.init nb (fun _ -> read_oracle ()) in
   let online = (match next () with "offline" -> false | "online" -> true | s -> failwith ("sim mode " ^ s)) in
   let nbat = next_int () in
+  expect "CHUNK"; let chunk = next_int () in
   let batches = ref [] and orcs = ref [] in
   for _ = 1 to nbat do
     let b = read_batch () in
-    let o = List.init nb (fun _ -> let a = read_oracle () in let b = read_oracle () in let c = read_oracle () in ((a, b), c)) in
+    (* per chunk of the batch, per bandit: the oracles of predict, predict_expectations, partial_fit *)
+    let nch = next_int () in
+    let o = List.init nch (fun _ ->
+        List.init nb (fun _ -> let a = read_oracle () in let b = read_oracle () in let c = read_oracle () in ((a, b), c))) in
     batches := b :: !batches; orcs := o :: !orcs
   done;
   let batches = List.rev !batches and orcs = List.rev !orcs in
@@ -402,9 +406,9 @@ let run_simcase () =
   (try
      let trained = sim_train_all fnum (=) tape_rng quick ms train train_orcs in
      let res =
-       if online then sim_online fnum (=) tape_rng trained O batches orcs
+       if online then sim_online_chunked fnum (=) tape_rng (nat_of_int chunk) trained O batches orcs
        else (match batches, orcs with
-             | [b], [o] -> sim_offline fnum (=) tape_rng trained b o
+             | [b], [o] -> sim_offline_chunked fnum (=) tape_rng (nat_of_int chunk) trained b o
              | _ -> failwith "offline needs one batch") in
      let pstats (l : (int * float stats) list) =
        String.concat " " (List.map (fun (a, st) -> Printf.sprintf "%d:%d:%s:%s:%s:%s:%s" a (int_of_z st.st_count) (fbits st.st_sum)
